@@ -181,6 +181,9 @@ def sCopyAtt (E : Env) (sin : SFile) (varidIn : Int) (raw : Name) (sout : SFile)
         match Lin[i]? with
         | none => (sout, NC_ENOTATT)
         | some ia =>
+          -- a classic-format file (CDF-1/2) cannot hold an attribute of an extended type (NC_UBYTE..NC_UINT64):
+          -- the rule ncmpi_put_att enforces (NC_ESTRICTCDF2) applies to a copy just as well
+          if sout.format ≤ 2 ∧ ia.xtype > 6 then (sout, NC_ESTRICTCDF2) else
           match lookup (names Lout) (E.nfc raw) with
           | some idx =>
             if same ∧ varidIn = varidOut then (sout, NC_NOERR)
